@@ -50,6 +50,7 @@ func c08Exec(r *vf.Run, k c08Case) []finding {
 	var out []finding
 	add := func(key, f string, a ...interface{}) { out = append(out, finding{key, fmt.Sprintf(f, a...)}) }
 	bspec := k.Spec
+	k.Spec = k.Spec.Effective() // what the renderings are judged against
 	if k.PreRenders > 0 {
 		bspec.SMIME = 0
 	}
@@ -230,6 +231,9 @@ func c08Exec(r *vf.Run, k c08Case) []finding {
 			wantKey = "ECDSA"
 		}
 		r.Outcome(fmt.Sprintf("reached/verified/key-kind=%d", k.Spec.SMIME))
+		if k.Spec.MW != 0 {
+			r.Outcome(fmt.Sprintf("reached/verified/middleware=%d", k.Spec.MW))
+		}
 		if k.Spec.Boundary != "" {
 			r.Outcome("reached/verified/caller-fixed-boundary")
 		}
@@ -409,6 +413,14 @@ func c08Specs(thorough bool) []c08Case {
 									w.Boundary = "caller-fixed-boundary-smime-01"
 									cs = append(cs, c08Case{Spec: w, Renders: 2, Ks: []int{0, 0}, Mod: mod})
 								}
+								if thorough || n%2 == 0 || mod == "none" {
+									// a middleware that changes headers only / the first body part / the attachments on every rendering
+									for mw := 1; mw <= 3; mw++ {
+										w := v
+										w.MW = mw
+										cs = append(cs, c08Case{Spec: w, Renders: 3, Ks: []int{0, 0, 0}, Mod: mod})
+									}
+								}
 								if thorough || n%4 == 0 || mod == "none" {
 									// the larger ECDSA curves
 									for _, kk := range []int{3, 4} {
@@ -450,13 +462,13 @@ func init() {
 	vf.Register(&vf.Check{
 		ID: "C08", Title: "S/MIME signatures verify for every message shape",
 		Run: func(r *vf.Run) {
-			r.SetRule("all 36 part/embed/attachment count combinations (0..3 × 0..2 × 0..2) × message encoding {QP, base64, 8bit} × file encoding {base64, 8bit, QP} with per-part encodings × modifier {none, part/file descriptions, no From, empty To list via ToIgnoreInvalid, generic header without values, two preformatted headers (one multi-line), long folded subject} × key {ECDSA P-256, RSA-2048} × {with, without intermediate certificate} × three consecutive renders × histories {signed from the start; 1–2 unsigned renders, then SignWithKeypair, then render; subject changed between signed renders; a WriteTo into a sink failing after 1/200/600/1500 bytes before each judged render} × map-iteration start 0..7 on the renders where map order matters, incl. a different order for the signed pre-rendering and the emission inside one WriteTo (switch after n = 1..14 iterations); every output is split by the harness' MIME reader and the PKCS#7 structure is verified by the harness' own CMS verifier (digest of the first part as emitted, signature over the DER SET of signed attributes, embedded certificates, protocol/micalg); distinct by (program, map starts)")
+			r.SetRule("all 36 part/embed/attachment count combinations (0..3 × 0..2 × 0..2) × message encoding {QP, base64, 8bit} × file encoding {base64, 8bit, QP} with per-part encodings × modifier {none, part/file descriptions, no From, empty To list via ToIgnoreInvalid, generic header without values, two preformatted headers (one multi-line), long folded subject} × key {ECDSA P-256, RSA-2048} × {with, without intermediate certificate} × three consecutive renders × histories {signed from the start; 1–2 unsigned renders, then SignWithKeypair, then render; subject changed between signed renders; a WriteTo into a sink failing after 1/200/600/1500 bytes before each judged render} × middleware {none; one that sets a header / appends a footer to the first body part / adds an attachment on every rendering} × map-iteration start 0..7 on the renders where map order matters, incl. a different order for the signed pre-rendering and the emission inside one WriteTo (switch after n = 1..14 iterations); every output is split by the harness' MIME reader and the PKCS#7 structure is verified by the harness' own CMS verifier (digest of the first part as emitted, signature over the DER SET of signed attributes, embedded certificates, protocol/micalg); distinct by (program, map starts)")
 			r.Assume("content is in canonical CRLF form", "cmsverify is validated at start-up against OpenSSL-produced CMS signatures (RSA and ECDSA)")
 			if !mapseam.Enabled {
 				r.Incomplete("runtime map-iteration seam not available: map order is sampled")
 			}
 			if r.Fork(r.Workers) {
-				r.Reached("reached/verified/hist=0/signapi=0", "reached/verified/hist=1/signapi=0", "reached/verified/hist=2/signapi=0", "reached/verified/hist=3/signapi=0", "reached/verified/hist=4/signapi=0", "reached/verified/hist=0/signapi=1", "reached/verified/hist=0/signapi=2", "reached/verified/hist=0/signapi=3", "reached/verified/hist=0/signapi=4", "reached/verified/signed-after-unsigned-renders", "reached/verified/after-failed-render", "reached/verified/map-order-switch", "reached/verified/key-kind=1", "reached/verified/key-kind=2", "reached/verified/key-kind=3", "reached/verified/key-kind=4", "reached/verified/caller-fixed-boundary")
+				r.Reached("reached/verified/hist=0/signapi=0", "reached/verified/hist=1/signapi=0", "reached/verified/hist=2/signapi=0", "reached/verified/hist=3/signapi=0", "reached/verified/hist=4/signapi=0", "reached/verified/hist=0/signapi=1", "reached/verified/hist=0/signapi=2", "reached/verified/hist=0/signapi=3", "reached/verified/hist=0/signapi=4", "reached/verified/signed-after-unsigned-renders", "reached/verified/after-failed-render", "reached/verified/map-order-switch", "reached/verified/key-kind=1", "reached/verified/key-kind=2", "reached/verified/key-kind=3", "reached/verified/key-kind=4", "reached/verified/caller-fixed-boundary", "reached/verified/middleware=1", "reached/verified/middleware=2", "reached/verified/middleware=3")
 				return
 			}
 			cases := c08Specs(r.Thorough)
